@@ -245,6 +245,10 @@ def minimal_medium(
                 medium = _as_medium(exchange_rxns, tol, exports=exports)
                 media.append(medium)
                 seen.update(medium[medium > 0].index)
+                if len(seen) == 0:
+                    # The empty medium suffices. Nothing can be excluded, so
+                    # every further round would only find it again.
+                    break
             if len(media) > 1:
                 medium = pd.concat(media, axis=1, sort=True).fillna(0.0)
                 medium.sort_index(axis=1, inplace=True)
